@@ -544,6 +544,32 @@ def frames(seed, nepisodes, prefix):
         yield {'id': '%s%d' % (prefix, i), 'comp': 'dec', 'solo': True, 'ops': ops}
 
 
+def bit_sweep(seed, prefix):
+    """Every single-bit change of the inner header of a consistent payload of each typed kind, one message per frame:
+    each flag bit, each bit of an inner length, error position, enumeration byte on its own."""
+    rng = random.Random(seed)
+    bases = {'can': [wire.can_payload(rng, 3, False, flags=0), wire.can_payload(rng, 0, False, flags=0x3C00)],
+             'canfd': [wire.can_payload(rng, 5, True, flags=0), wire.can_payload(rng, 64, True, flags=0x3000)],
+             'lin': [wire.lin_payload(rng, 2, flags=0), wire.lin_payload(rng, 8, flags=0x0100)],
+             'eth': [wire.eth_payload(rng, 9, flags=0), wire.eth_payload(rng, 300, flags=0x80)],
+             'analog': [wire.analog_payload(rng, 6, dt=0), wire.analog_payload(rng, 8, dt=1)],
+             'cm': [wire.cm_payload(rng, [3, 0, 5, 2], [1, 2, 3]), wire.cm_payload(rng, [0, 0, 0, 0], [])],
+             'if': [wire.if_payload(rng, 3, 2, 0), wire.if_payload(rng, 0, 0, 2), wire.if_payload(rng, 4, 0, 1)]}
+    for kind, bl in bases.items():
+        m, t = wire.KIND_TYPE[kind]
+        for bi, base in enumerate(bl):
+            ops = [{'op': 'new'}]
+            nbits = 8 * min(len(base), wire.HDR[kind] + 8)
+            for bit in [None] + list(range(nbits)):
+                pl = list(base)
+                if bit is not None:
+                    pl[bit // 8] ^= 0x80 >> (bit % 8)
+                p = {'mt': m, 'pt': t, 'ver': 1, 'ts': [0, 1, 2, 3, 4, 5, 6, bi], 'ifid': [0, 0, 0, 9], 'vid': 0x1234, 'fl': 0, 'pl': pl}
+                frame = wire.frame_header(1, 5, m, 2, bit or 0) + wire.msg_header(p, 0, len(pl)) + pl
+                ops.append({'op': 'decode', 'in': frame})
+            yield {'id': '%s-%s%d' % (prefix, kind, bi), 'comp': 'dec', 'solo': True, 'ops': ops}
+
+
 def write(path, episodes):
     n = 0
     with open(path, 'w') as f:
